@@ -445,3 +445,5 @@ func genC05(r *rng, n int, tier string, emit func(string, ...string)) {
 func init() {
 	gens["C05"] = genC05
 }
+
+func pairsOf(rec gowarc.WarcRecord) [][2]string { return gowarc.VerifPairs(rec.WarcHeader()) }
